@@ -186,6 +186,9 @@ def run(ctx):
     _r6_dispatch(ctx)
     _r7_switch_histories(ctx)
     _r8_jit_arguments(ctx)
+    r9 = ctx.rule("C11.R9", "MEMO-STATE (effect rule, whole package): no memoised function (functools.lru_cache / cache) anywhere in src/pyhf reads -- itself or through the package functions it calls -- the current backend (get_backend(), pyhf.tensorlib, pyhf.default_backend, pyhf.optimizer) or any module state the package rebinds at run time: such a function would keep answering for the backend of its first call after a switch", "EFFECT", floor=1)
+    from .. import memo
+    ctx.extra["memoised_functions_in_package"] = memo.check(ctx, r9, sorted(ctx.repo.by_relpath))
 
 
 # ----------------------------------------------------------------------
